@@ -200,6 +200,11 @@ fn run_one(cx: &Ctx<'_>, cfg: &Cfg, prefix: &[usize], allow_dev: bool) -> Outcom
                         }
                     }
                 }
+                Action::DeliverBurst(fs) => {
+                    for f in fs {
+                        world.deliver(f.seq);
+                    }
+                }
                 Action::Drop(f) => world.drop_frame(f.seq),
                 Action::Advance => {
                     tokio::time::sleep(REQUEST_TIMEOUT).await;
